@@ -1,8 +1,8 @@
 """C03 — RDY flow control, CLS and pause (engine E2)."""
 import e2
 
-TIE = ["Nsq.Tie.Chan"]
-PROPS = ["Nsq.Props.C03"]
+TIE = ["Nsq.Tie.Chan", "Nsq.Tie.ChanFunc"]
+PROPS = ["Nsq.Props.C03", "Nsq.Props.C03Pump"]
 
 
 def run(ctx):
@@ -11,10 +11,17 @@ def run(ctx):
                 "backlog, competing consumers, buffered and unbuffered output; oracle: harness-side bookkeeping outstanding = "
                 "sent - answered - timed out compared with RDY at every message frame; nothing on a paused channel; no "
                 "fan-out from a paused topic; RDY accepted iff 0 <= v <= max-rdy-count else fatal E_INVALID; a stalled "
-                "delivery (guard true, queue non-empty, nothing sent within 8 s) is a failure")
+                "delivery (guard true, queue non-empty, nothing sent within 8 s) is a failure; pump leg: every Write on a "
+                "consumer connection (net.Pipe, output_buffer_timeout off / running / never) must be explained by the "
+                "output-buffer model, nothing published after RDY 0 / pause took effect is taken or sent, a running "
+                "ticker flushes within T + 1.5 s")
     ctx.assumptions += [
-        "atomic model: the pump's guard evaluation and its send are one step; the one-message overshoot after a RDY "
-        "decrease / CLS / pause that the pump has not yet evaluated is not modelled (docs/C03.md)",
+        "we read 'takes effect' as the pump's next evaluation of IsReadyForMessages: between a RDY decrease / CLS / pause and "
+        "that evaluation at most ONE message can still be received (overshoot_le_one, C03Pump.one_recv_per_guard; replayed "
+        "with hook proto.pump.afterGuard as an observation); the atomic-model theorems treat guard evaluation and send as one step",
+        "C03Pump (output buffer): 'flushed by the next flusher tick' needs a running ticker (output_buffer_timeout not "
+        "disabled by the client); with it disabled a buffered message waits for the next forced flush / response / heartbeat "
+        "(flushed_by_next_tick states both); the ticker's period itself is wall-clock (oracle pump-late-flush: T + 1.5 s)",
         "rdy_range_full: max-rdy-count < 2^63 (an int64 option)",
         "0 <= max-rdy-count",
     ]
